@@ -547,6 +547,29 @@ class Extractor:
             else:
                 it['srck'] = 'other'
                 it['src'] = substitute(R.render(args[0]), subst)
+        elif m['k'] == 'CXXMemberCallExpr' and m['callee']['name'] in ('c_str', 'data') and m['callee'].get('classq') in ('std::basic_string', 'std::vector') and \
+                filled_buffer(f, m['obj'], R) is not None and filled_buffer(f, m['obj'], R)[1] != 0:
+            n_, ch_ = filled_buffer(f, m['obj'], R)
+            it['srck'] = 'fill'
+            it['src'] = 'fill(%d)' % ch_
+            it['fill_char'] = ch_
+            it['fill_n'] = subst_poly(n_, subst)
+            own = substitute(R.render(m['obj']), subst) + '.size'
+            raw = R.render(m['obj']) + '.size'
+
+            def own_size(w):
+                if w is None:
+                    return w
+                out = {}
+                for mono, c in w.items():
+                    if mono in ((own,), (raw,)):
+                        for m2, c2 in it['fill_n'].items():
+                            out[m2] = out.get(m2, 0) + c * c2
+                    else:
+                        out[mono] = out.get(mono, 0) + c
+                return {k: v for k, v in out.items() if v != 0}
+            it['width'] = own_size(it.get('width'))
+            it['width_alts'] = [own_size(w) for w in it.get('width_alts', [])]
         elif m['k'] == 'CXXMemberCallExpr' and m['callee']['name'] in ('c_str', 'data') and m['callee'].get('classq') == 'std::basic_string':
             it['srck'] = 'string'
             it['src'] = substitute(R.render(m['obj']), subst)
@@ -565,6 +588,40 @@ class Extractor:
             it['srck'] = 'other'
             it['src'] = substitute(R.render(args[0]), subst)
         return it
+
+
+def filled_buffer(f, obj, R):
+    """obj designates a std::string / std::vector<char> constructed as (N, c) (a local never modified
+    afterwards, or a temporary): -> (poly of N, character code) else None"""
+    n = f.nodes[f.strip(obj, 'all')]
+    c = None
+    if n['k'] == 'DeclRefExpr' and n['decl'].get('dk') == 'local':
+        init = local_init(f, n['decl']['id'])
+        if init is None or n['decl']['id'] not in R.single_def_locals():
+            return None
+        c = f.nodes[f.strip(init, 'noop')]
+    else:
+        c = f.nodes[f.strip(obj, 'noop')]
+    while c['k'] in ('ExprWithCleanups', 'MaterializeTemporaryExpr', 'CXXBindTemporaryExpr', 'ImplicitCastExpr', 'CXXFunctionalCastExpr') and c['ch']:
+        c = f.nodes[f.strip(c['ch'][0], 'noop')]
+    if c['k'] not in ('CXXConstructExpr', 'CXXTemporaryObjectExpr') or len(c.get('args', [])) < 2:
+        return None
+    cls = c['callee'].get('class', '')
+    if not (cls.startswith('std::vector<char') or cls.startswith('std::basic_string<char') or cls == 'std::string' or cls.startswith('std::vector<unsigned char')):
+        return None
+    # (count, value [, allocator]) : the first argument must be integral, not an iterator / pointer
+    a0 = f.nodes[f.strip(c['args'][0], 'noop')]
+    if a0.get('tc') not in ('u', 's'):
+        return None
+    fill = f.nodes[f.strip(c['args'][1], 'all')]
+    if fill.get('cv') is None:
+        if fill['k'] == 'CharacterLiteral':
+            code = int(fill.get('v'))
+        else:
+            return None
+    else:
+        code = int(fill['cv'])
+    return P.poly(f, c['args'][0], R), code
 
 
 def zero_vector(f, obj, R):
